@@ -161,6 +161,12 @@ def tg_case(rnd, domain):
     # shared names must have the same tier class
     kinds = {t['name']: t['k'] for t in g['tiers']}
     h = dict(h, tiers=[t for t in h['tiers'] if kinds.get(t['name'], t['k']) == t['k']])
+    if rnd.random() < 0.3:
+        # an appended textgrid that does not start at 0 (e.g. the result of crop(..., rebaseToZero=False)): its entries are
+        # still shifted by A's END TIME (round 3, C09-mutF: shifted by A.max - B.min "so that no gap is left")
+        m = rnd.choice([0.5, 1.0, 2.0]) if domain != 'dec' else round(rnd.uniform(0.1, 3), 2)
+        h = {'lo': h['lo'] + m, 'hi': h['hi'] + m,
+             'tiers': [dict(t, lo=t['lo'] + m, hi=t['hi'] + m, es=[[x + m for x in e[:-1]] + [e[-1]] for e in t['es']]) for t in h['tiers']]}
     return {'op': 'tg_append', 'tg': g, 'other': h, 'matching': rnd.random() < 0.5}
 
 
